@@ -58,6 +58,7 @@ Section PushDistinct.
   Proof.
     destruct g; cbn [do_agg]; try reflexivity.
     - destruct (dget (x mx s) nm (hdr_key l i)) as [[?|?|?|]|]; reflexivity.
+    - destruct (none_like _); reflexivity.
     - destruct (is_blank_text (tally_text l i)); reflexivity.
   Qed.
 
